@@ -61,11 +61,16 @@ class Routes(object):
             pairs.append("X%d-Y%d : >=-100 as.%s %s" % (i, i, nm, " ".join(ptext)))
             forms.append("w%d(r) = as.%s(%s)" % (i, nm, ", ".join(["r"] + ptext)))
             pairs.append("X%d-Z%d : >=-100 w%d" % (i, i, i))
+            # a decimal may be written without its leading zero ('.3', '-.25')
+            short = [("-" + t[2:] if t.startswith("-0.") else t[1:] if t.startswith("0.") else t) for t in ptext]
+            if short != ptext:
+                pairs.append("X%d-S%d : >=-100 as.%s %s" % (i, i, nm, " ".join(short)))
         text = "[Tabulation]\ntarget : LAMMPS\nnr : 5\ncutoff : 4.0\n\n[Potential-Form]\n" + "\n".join(forms) + "\n\n[Pair]\n" + "\n".join(pairs) + "\n"
         self.text = text
         tab = Configuration().read(io.StringIO(text))
         self.r3 = {p.speciesA: p for p in tab.potentials if p.speciesB.startswith("Y")}
         self.r4 = {p.speciesA: p for p in tab.potentials if p.speciesB.startswith("Z")}
+        self.r3s = {p.speciesA: p for p in tab.potentials if p.speciesB.startswith("S")}
 
     def values(self, i):
         nm, ptext, x = self.items[i]
@@ -75,7 +80,8 @@ class Routes(object):
         pi = [int(t) if t.lstrip("-").isdigit() else float(t) for t in ptext]
         for route, fn in (("R1", lambda: getattr(PFn, nm)(x, *p)), ("R2", lambda: getattr(PFo, nm)(*p)(x)),
                           ("R3", lambda: self.r3["X%d" % i].energy(x)), ("R4", lambda: self.r4["X%d" % i].energy(x)),
-                          ("R1int", lambda: getattr(PFn, nm)(x, *pi)), ("R2int", lambda: getattr(PFo, nm)(*pi)(x))):
+                          ("R1int", lambda: getattr(PFn, nm)(x, *pi)), ("R2int", lambda: getattr(PFo, nm)(*pi)(x)),
+                          ("R3short", lambda: self.r3s["X%d" % i].energy(x) if "X%d" % i in self.r3s else None)):
             try:
                 out[route] = fn()
             except Exception as e:
@@ -125,8 +131,10 @@ def worker_main(path):
         if isinstance(r1, str):
             fail("evaluation-raises", "%s: %s" % (what, r1), c)
             continue
-        for route in ("R2", "R3", "R4", "R1int", "R2int"):
+        for route in ("R2", "R3", "R4", "R1int", "R2int", "R3short"):
             v = vals[route]
+            if v is None:
+                continue
             # integer-typed parameters may round differently in the last place (int ** int is exact), nothing more
             same = (not isinstance(v, str)) and (v == r1 or (route.endswith("int") and close(v, r1, tol=1e-13)))
             if not same:
@@ -212,7 +220,18 @@ def worker_main(path):
     rt.build()
     for nm, p, r, i in items:
         vals = rt.values(i)
+        vals = {k: v for k, v in vals.items() if v is not None}
         n += 4
+        if nm == "zbl" and not isinstance(vals["R1"], str):
+            # the manual's universal screening function; its constants and the implementation's agree to three digits, so
+            # this pins the form (and the like-species case) to 1 %, not the last digits
+            z1, z2 = p
+            a = 0.46850 / (z1 ** 0.23 + z2 ** 0.23)
+            xx = r / a
+            phi = 0.18175 * math.exp(-3.19980 * xx) + 0.50986 * math.exp(-0.94229 * xx) + 0.28022 * math.exp(-0.40290 * xx) + 0.02817 * math.exp(-0.20162 * xx)
+            doc = 14.39942 * z1 * z2 / r * phi
+            if abs(vals["R1"] - doc) > 0.01 * abs(doc):
+                fail("closed-form", "as.zbl %s %s at r=%s = %r, the manual's screened Coulomb form gives %r (1 %% is allowed for the rounded constants)" % (z1, z2, r, vals["R1"], doc), None)
         if any(isinstance(v, str) for v in vals.values()) or len(set(vals.values())) != 1:
             fail("routes-disagree", "as.%s %s at r=%s: %s" % (nm, p, r, vals), None)
         fn = getattr(PFn, nm)
